@@ -7,6 +7,19 @@ HERE = os.path.dirname(os.path.dirname(os.path.abspath(__file__)))
 ALL = ["C%02d" % i for i in range(1, 21)]
 
 CLAIMED = {
+    "C13": dict(
+        category="model_checking",
+        text=("Grid.tla models a grid object as a state machine with index maps and geometry in closed form; TLC checks "
+              "index bijection, positivity and additivity of volumes on all grids up to 2x2x2 with all masks and all "
+              "mask replacements.  Seeded random operation sequences (reset/copy with new masks incl. same-count masks, "
+              "all-active reset, EGRID/FEGRID save+load with NNCs and MAPAXES, warm/cold volume cache, 1/4/16 threads) are "
+              "executed on the real EclipseGrid built from DX/DY/DZ/TOPS, DXV/DYV/DZV and COORD/ZCORN decks in METRIC and "
+              "FIELD units; every step's observation is an event validated by TLC, all invariants evaluated per state."),
+        design_ref="DESIGN.md section 5, C13",
+        note=("Trusted: TLC, the deck renderer, integral geometry (1e-7 rounding guard).  Sheared pillars and dipping "
+              "layers are not generated; cell centres are checked through the depth only."),
+        technique="TLA+ state machine checked with TLC + trace validation of the real EclipseGrid under operation sequences",
+    ),
     "C12": dict(
         category="model_checking",
         text=("Oracle_FieldProps.tla is an explicit reference interpreter of the keyword operations over arrays on all "
